@@ -132,11 +132,13 @@ CLAIMED.update({
         "DESIGN.md §5 C16",
     ),
     "C09": (
-        "role-swap symmetry on value-numbered terms (polynomial normal form with the CDF complement identity) + order-tag alignment + interval analysis",
+        "role-swap symmetry on value-numbered terms (polynomial normal form with the CDF complement identity) + order-tag alignment + interval analysis; "
+        "monotonicity typing of the returned terms in the mu of a member (R9.7)",
         "other",
         "The pair term for (a, b) plus the role-swapped term is identically 1 (antisymmetric margin, symmetric scale) in both the two-team and the n-team code path; the two-team form returns p and 1-p; "
         "entry k of the n-team result sums exactly the pair terms with teams[k] first; the scale is positive. Necessary structure of 'sums to 1 / permutes with the teams / one half for identical teams'; "
-        "range for n > 2 and monotonicity are not decided.",
+        "each returned term is typed non-decreasing in the mu of the own team's members and non-increasing in every other team's (CDF monotone by role, signs of mu-independent factors "
+        "from the interval analysis); no test on the value equality of teams. Range for n > 2 is not decided.",
         "Trusted: osv/ai, osv/poly.py, phi_major in the CDF role, itertools.permutations order and the k-chunk idiom.",
         "DESIGN.md §5 C09",
     ),
